@@ -15,6 +15,11 @@ from ..core.loader import unparse
 def _log_test(test):
     """(var, none_edge) if test is `<v> is None` / `<v> is not None` for a
     log-like variable: returns the edge label on which v is None"""
+    if isinstance(test, ast.UnaryOp) and isinstance(test.op, ast.Not):
+        r = _log_test(test.operand)
+        if r is None:
+            return None
+        return r[0], ('false' if r[1] == 'true' else 'true')
     if isinstance(test, ast.Compare) and len(test.ops) == 1 \
             and isinstance(test.comparators[0], ast.Constant) \
             and test.comparators[0].value is None:
